@@ -112,11 +112,12 @@ def rendered_text_probe(ctx, exe_tables):
     rng = ctx.rng
     cands = [sc.gen_project(rng, max_locales=3, force_ns=(i % 2 == 0)) for i in range(6)]
     proj = max(cands, key=lambda p: len([t for t in sc.touchables(p) if t[3] == ""]))
-    d = os.path.join(ctx.work, "probe_text_s%d" % ctx.seed)
+    from checks import isolate
+    d = isolate.probe_dir(ctx, "probe_text")
     touch_list = [t for t in sc.touchables(proj) if t[3] == ""]
     if len(touch_list) > 300:
         touch_list = rng.sample(touch_list, 300)
-    name = "c11_probe_text_s%d" % ctx.seed
+    name = isolate.probe_name(ctx, "c11_probe_text")
     sc.write_probe(proj, d, touch_list, name)
     probe = sc.build_probe(d, name)
     rc, out, err = core.sh([probe], input="".join("%d\n" % i for i in range(len(touch_list))), timeout=600)
@@ -302,6 +303,8 @@ def params_for(rng, pair):
 
 
 def run(ctx):
+    from checks import isolate
+    isolate.enter(ctx)
     bindir = core.cargo_build("h_strings")
     ok, problems = core.coq_audit(ctx, PROPS, THEOREMS)
     exe = os.path.join(bindir, "h_strings")
@@ -453,6 +456,8 @@ def run(ctx):
 
 
 def replay(ctx, path):
+    from checks import isolate
+    isolate.enter(ctx)
     obj = json.load(open(path))
     print(json.dumps(obj, indent=1, ensure_ascii=True))
     fi = obj.get("failing_input") or obj.get("first_disagreeing_input")
